@@ -7,7 +7,7 @@
     with Go crypto ((alg, message) -> digest).  The model's [H] is the lookup in
     that table; a missing entry yields [[-1]], which is not a byte string, so
     the comparison with the implementation's bytes fails (a mismatch). *)
-From CSS Require Import Lib.Base Lib.Cases Model.EventLog.
+From CSS Require Import Lib.Base Lib.Cases Model.EventLog Model.EventLogSess.
 
 (** observed result with the error class *)
 Inductive robs (A : Type) : Type :=
@@ -69,7 +69,39 @@ Definition cmd_eqb (a b : cmd) : bool :=
   | _, _ => false
   end.
 
+(** observation of one step of a session (Model/EventLogSess.v): what the call
+    returned; FilterEvents results as the addresses of the returned pointers
+    (a pointer that is not an Event object of the session is reported as an
+    address beyond the heap) *)
+Inductive sobs :=
+| OReplay (r : robs (list Z))
+| OFilter (r : robs (list nat))
+| OParsed (r : robs (list entry))
+| ONone.
+
+Definition sobs_match (o : sobs) (m : sres) : bool :=
+  match o, m with
+  | OReplay r, RReplay x => robs_match zlist_eqb r x
+  | OFilter r, RFilter x => robs_match (list_eqb Nat.eqb) r x
+  | OParsed r, RParsed x => robs_match (list_eqb entry_eqb) r x
+  | ONone, RNone => true
+  | _, _ => false
+  end.
+
+Fixpoint list_match {A B} (f : A -> B -> bool) (l : list A) (m : list B) : bool :=
+  match l, m with
+  | [], [] => true
+  | x :: l', y :: m' => f x y && list_match f l' m'
+  | _, _ => false
+  end.
+
 Inductive case : Type :=
+(* a session on ONE *TPMEventLog: the memory at the start, every step with what
+   the call returned at that moment, the results the harness KEPT (read again
+   at the end of the session) and the memory at the end *)
+| CSession (tbl : hash_table) (heap0 : list event) (evs0 : list nat)
+           (steps : list (sop * sobs)) (kept : list sobs)
+           (heapF : list event) (evsF : list nat)
 (* tpmeventlog.Replay(log, p, a) *)
 | CReplay (tbl : hash_table) (log : list event) (p a : Z) (r : robs (list Z))
 (* TPMEventLog.FilterEvents(p, a): the returned events *)
@@ -87,6 +119,12 @@ Inductive case : Type :=
 
 Definition check (c : case) : bool :=
   match c with
+  | CSession tbl heap0 evs0 steps kept heapF evsF =>
+      let '(sF, rs) := srun (tbl_hash tbl) (mkLS heap0 evs0) (map fst steps) in
+      list_match sobs_match (map snd steps) rs
+      && list_match sobs_match kept rs
+      && list_eqb event_eqb heapF (ls_heap sF)
+      && list_eqb Nat.eqb evsF (ls_evs sF)
   | CReplay tbl log p a r => robs_match zlist_eqb r (replay (tbl_hash tbl) log p a)
   | CFilter log p a r => robs_match (list_eqb event_eqb) r (filterEvents log p a)
   | CLocality data r => robs_match Z.eqb r (parse_locality data)
